@@ -19,7 +19,8 @@ RULE = ("E3: BFS over all event sequences up to depth D (inject copy of key k in
         "fast request (P1,m+2) on the token of (P1,m), fire next "
         "timer, the same key under another token, the same key towards a second server endpoint of the process, jump to first arrival + EXCHANGE_LIFETIME -/+ 1 ms, ACK the separate response) per (handler kind, CON/NON, "
         "server initial MID) scenario, and behind three long prefixes (duplicate inside the lifetime, re-use after the expiry, the moment anything "
-        "armed by the old duplicate is due), dedup on model + dedup table + piggyback table + timers + handler counters")
+        "armed by the old duplicate is due), behind an acknowledged separate response whose own message ID equals the request's, and with request "
+        "message IDs 0/1/2 (server counter wrapping onto them), dedup on model + dedup table + piggyback table + timers + handler counters")
 ASSUMPTIONS = [
     "EXCHANGE_LIFETIME = 247 s computed from RFC 7252 defaults inside the model (not read from the library)",
     "exact ties with the expiry instant are not explored (epsilon = 1 ms)",
@@ -33,6 +34,11 @@ P2 = ("2001:db8::1", 40002)   # same IP, other port
 P3 = ("2001:db8::3", 40001)   # other IP, same port
 M = 0x4000
 KEYS = [(P1, M), (P2, M), (P3, M), (P1, M + 1), (P1, M + 2)]
+
+
+def keys_for(base):
+    """The request keys around another message ID (0: the boundary value every peer reaches once per wrap-around)."""
+    return [(P1, base), (P2, base), (P3, base), (P1, (base + 1) & 0xFFFF), (P1, (base + 2) & 0xFFFF)]
 # the fifth key re-uses the token of the first one (new message ID) and always asks the fast resource: a request that supersedes
 # one still in its (slow) handler.  Only offered where the scenario's handler is slow.
 LIFETIME = 2.0 * (2 ** 4 - 1) * 1.5 + (2 * 100.0 + 2.0)   # MAX_TRANSMIT_SPAN + MAX_RTT = 247 s
@@ -151,6 +157,11 @@ def note_wire(st, since):
         k = (dg.dst, mid)
         if mtype == rc.ACK and k in st.model and st.model[k]["ack"] is None and st.model[k]["first"] + LIFETIME > dg.t - 1e-9:
             st.model[k]["ack"] = d
+        if mtype == rc.ACK and k not in st.model:
+            # the only confirmable messages this server ever receives are the requests of the model: an acknowledgement that names
+            # none of them is the acknowledgement of some request under a wrong ID (and will not be repeated for its copies)
+            st.violations.append(Violation("acknowledgement-names-no-request", "ACKs carry the message ID of a request received from that endpoint",
+                                           d.hex(), "messagemanager.py:send_message", {}, key="ack-foreign-id"))
         if mtype == rc.CON and (dg.dst, mid) not in st.seps:
             st.seps.append((dg.dst, mid))
 
@@ -287,15 +298,22 @@ PREFIXES = {
     "dup-late": (("copy", 0), ("jump", "before"), ("copy", 0), ("jump", "after"), ("copy", 0), ("jump", "before")),
     "two-peers": (("copy", 0), ("copy", 1), ("jump", "mid"), ("copy", 1), ("jump", "after"), ("copy", 0), ("copy", 1)),
     "two-servers": ("two",),     # no prefix events: switches the second server's copy event on
+    # a slow handler's separate (confirmable) response has been sent and acknowledged by the peer; with the server's counter seeded
+    # next to the request's ID the two ID spaces hold the same number, and the end of the server's own exchange must not touch
+    # what it remembers about the peer's request
+    "sep-acked": (("copy", 0), ("timer",), ("timer",), ("acksep",)),
 }
 
 
 def job(arg):
+    global KEYS
     kind, con, mid0, depth = arg[:4]
-    prefix = PREFIXES[arg[4]] if len(arg) > 4 else ()
+    prefix = PREFIXES[arg[4]] if len(arg) > 4 and arg[4] else ()
+    base = arg[5] if len(arg) > 5 else M
+    KEYS = keys_for(base)
     res = Result()
     build0 = make_build(kind, con, mid0)
-    name = "S-DUP-%s-%s-mid0=%#x%s" % (kind, "CON" if con else "NON", mid0, ("-prefix=" + arg[4]) if prefix else "")
+    name = "S-DUP-%s-%s-mid0=%#x%s%s" % (kind, "CON" if con else "NON", mid0, ("-prefix=" + arg[4]) if prefix else "", "" if base == M else "-base=%#x" % base)
 
     two = prefix == ("two",)
     if two:
@@ -306,7 +324,7 @@ def job(arg):
     if prefix:
         st0 = build(())
         for v in st0.violations:
-            v["case"] = core.jsonable({"kind": kind, "con": con, "mid0": mid0, "hist": [list(e) for e in prefix]})
+            v["case"] = core.jsonable({"kind": kind, "con": con, "mid0": mid0, "base": base, "hist": [list(e) for e in prefix]})
             v["scenario"] = name
             res.violate(v)
         st0.world.dispose()
@@ -319,7 +337,7 @@ def job(arg):
     def check(hist, st):
         out = []
         for v in st.last:
-            v["case"] = core.jsonable({"kind": kind, "con": con, "mid0": mid0, "hist": [list(e) for e in tuple(prefix) + tuple(hist)]})
+            v["case"] = core.jsonable({"kind": kind, "con": con, "mid0": mid0, "base": base, "hist": [list(e) for e in tuple(prefix) + tuple(hist)]})
             v["scenario"] = name
             v["trace"] = st.world.trace[-40:]
             out.append(v)
@@ -345,14 +363,25 @@ def run(tier, seed, jobs):
                 else:
                     d = 6 if con else 5
                 work.append((kind, con, mid0, d))
+    # request message IDs around 0 (and the server's own counter wrapping onto them)
+    for kind in ("fast", "supp", "slow") if tier == "quick" else KINDS:
+        for mid0 in (0xFFFF, 0x7000):
+            work.append((kind, True, mid0, 3 if tier == "quick" else 5, None, 0))
+    for kind in ("slow", "slowfail"):
+        for mid0 in (M - 1, M):
+            work.append((kind, True, mid0, 2 if tier == "quick" else 3, "sep-acked"))
     for kind in ("fast", "slow") if tier == "quick" else KINDS:
         for con in (True, False):
             for pname in PREFIXES:
+                if pname == "sep-acked":
+                    continue
                 work.append((kind, con, 0x7000, (3 if pname == "two-servers" else 2) if tier == "quick" else (4 if pname == "two-servers" else 3), pname))
     return core.prun(job, work, jobs)
 
 
 def replay(case, scenario, seed):
+    global KEYS
+    KEYS = keys_for(case.get("base", M))
     st = make_build(case["kind"], case["con"], case["mid0"])([tuple(e) for e in case["hist"]])
     for line in st.world.trace:
         print("    ", line)
